@@ -677,7 +677,13 @@ def main(argv):
         lines.append("KNOWN-FINDING: property=%s %s (obligation %s)" % (pid, what, name))
     replays = []
     for (part, name, hid, hfile, res, reason) in violations[:3]:
-        if part is not None:
+        if part is not None and os.environ.get("VERIF_NO_REPLAY"):
+            # detection-only runs (tools/try_mut.sh): skip counterexample extraction and native replay
+            os.makedirs(REPLAYS, exist_ok=True)
+            rpath = os.path.join(REPLAYS, "%s-%s.rs" % (pid, name))
+            open(rpath, "w").write("// replay skipped (VERIF_NO_REPLAY); refuted obligation %s: %s\n" % (name, reason))
+            confirmed, status = False, "replay skipped"
+        elif part is not None:
             rpath, confirmed, status = build_replay(pid, part, name, hid, hfile, res, reason)
         else:
             os.makedirs(REPLAYS, exist_ok=True)
